@@ -108,9 +108,10 @@ def build(s, p=None, wl=None):
     wl = s["wavelength"] if wl is None else wl
     mask = p["mask"] if p["labels"] is None else np.stack([(p["labels"] == v).astype(int)
                                                           for v in range(1, int(p["labels"].max()) + 1)])
-    pl = lentil.Pupil(amplitude=p["amp"].copy(), opd=p["opd"].copy(), mask=mask.copy(), pixelscale=cm.as_ps(s["dx"]),
-                      focal_length=s["z"])
-    pl, _variant = cm.derive_obj(pl, int(p["amp"].shape[0]) + 2 * int(p["amp"].shape[1]) + int(np.count_nonzero(p["mask"])))
+    pl, _variant = cm.build_obj(lentil.Pupil, "lentil.Pupil",
+                                int(p["amp"].shape[0]) + 2 * int(p["amp"].shape[1]) + int(np.count_nonzero(p["mask"])),
+                                amplitude=p["amp"].copy(), opd=p["opd"].copy(), mask=mask.copy(), pixelscale=cm.as_ps(s["dx"]),
+                                focal_length=s["z"])
     w = lentil.Wavefront(wl) * pl
     model = pm.phasor(p["amp"].shape, p["amp"], p["opd"], p["mask"], wl)
     return w, model
